@@ -97,6 +97,11 @@ CHECKS = {
    "Every adversarial establishment behaviour is enumerated; oracle: only the StartTLS request and TLS records travel in cleartext, Ok iff TLS was really established under the effective trust settings, operations after Ok travel inside TLS and never see forged cleartext responses; a client-side hang until the guard is a violation because the scripted server always acts immediately.",
    "Trusted base: native-tls/OpenSSL acceptor, committed test PKI (/verif/tls), harness BER/request decoder. Real sockets and wall time; env-* problems (bind, 20 s guard) yield exit 2.",
    "DESIGN.md §3 C17", "harness"),
+ "C18": ("exploration",
+   "property-based testing (proptest) of generated URL x settings combinations through both the async and sync constructors against real loopback endpoints; a reference model of the documented dispatch predicts the outcome class and which endpoint must receive the connection",
+   "Schemes, host forms, ports (incl. default 389/636 listeners bound by the harness), percent-encoded socket paths, StartTLS, pre-opened streams of every kind, connection timeouts, silent servers and broken URLs; per-case listeners count accepts so a connection to the wrong endpoint is visible; panics are always violations.",
+   "Trusted base: dispatch model of DESIGN.md Appendix C, harness servers, test PKI. Real sockets/wall time: env-* problems are exit 2; undefined URLs only checked for panics.",
+   "DESIGN.md §3 C18, Appendix C", "harness"),
 }
 
 NOT_YET = {}
